@@ -355,6 +355,31 @@ func runC02(p *core.Prog, r *core.Report, tier string) {
 						}
 						return 1
 					}
+					// the kind of job as an enumerated field: the edge on which the field differs from what ScheduleJob
+					// (one-off) stores, or equals what SchedulePeriodicJob stores
+					if c.Op == "==" || c.Op == "!=" {
+						for _, side := range [][2]*core.VD{{c.X, c.Y}, {c.Y, c.X}} {
+							if side[0].Kind != "field" || side[1].Kind != "const" {
+								continue
+							}
+							oneOff, periodic := jobKindConstants(p, ds, fns, side[0].Name)
+							want := ""
+							switch side[1].Name {
+							case oneOff:
+								want = "!="
+							case periodic:
+								want = "=="
+							}
+							if want == "" || oneOff == periodic {
+								continue
+							}
+							for e := 0; e < 2; e++ {
+								if c.RelOnEdge(e) == want {
+									return e
+								}
+							}
+						}
+					}
 					return -1
 				}
 				est := guardEdges(ds, f, periodicTrue)
@@ -707,4 +732,38 @@ func sendOrigin(f *ssa.Function, in ssa.Instruction) ssa.Instruction {
 		}
 	})
 	return found
+}
+
+// jobKindConstants: the constants ScheduleJob and SchedulePeriodicJob store into field fieldName of the job they create
+// ("" when not a constant).
+func jobKindConstants(p *core.Prog, ds *core.Describer, fns []*ssa.Function, fieldName string) (oneOff, periodic string) {
+	for _, f := range fns {
+		if f.Parent() != nil || (f.Name() != "ScheduleJob" && f.Name() != "SchedulePeriodicJob") {
+			continue
+		}
+		core.EachInstr(f, func(in ssa.Instruction) {
+			st, ok := in.(*ssa.Store)
+			if !ok {
+				return
+			}
+			fa, ok := st.Addr.(*ssa.FieldAddr)
+			if !ok {
+				return
+			}
+			id, _, ok := core.FieldOfAddr(fa)
+			if !ok || id.Name != fieldName {
+				return
+			}
+			d := ds.D(st.Val)
+			if d.Kind != "const" {
+				return
+			}
+			if f.Name() == "ScheduleJob" {
+				oneOff = d.Name
+			} else {
+				periodic = d.Name
+			}
+		})
+	}
+	return oneOff, periodic
 }
